@@ -9,7 +9,8 @@ Traces == ndJsonDeserialize(IOEnv.TRACE_FILE)
 VARIABLES t, pc
 tr == Traces[t]
 Init == t \in 1..Len(Traces) /\ pc = "judge"
-Digits(n) == IF n < 10 THEN <<48 + n>> ELSE <<48 + (n \div 10)>> \o <<48 + (n % 10)>>
+RECURSIVE Digits(_)
+Digits(n) == IF n < 10 THEN <<48 + n>> ELSE Digits(n \div 10) \o <<48 + (n % 10)>>      \* decimal digits as character codes
 C06_Failed ==
     IF tr.rec = <<>> THEN {"planted_query_is_reported"}
     ELSE LET r == tr.rec[1] IN
@@ -17,7 +18,7 @@ C06_Failed ==
          \cup (IF r.ori = (IF tr.rev THEN "-" ELSE "+") THEN {} ELSE {"on_that_strand"})
          \cup (IF r.pairs = tr.truth THEN {} ELSE {"exactly_the_true_pairs"})
          \cup (IF \A j \in 1..Len(tr.shifts) : tr.shifts[j] <= 200 /\ tr.shifts[j] >= -200 THEN {} ELSE {"within_200bp_of_seed_diagonal"})
-         \cup (IF Len(tr.truth) < 100 /\ r.hit = Digits(Len(tr.truth)) \o <<77>> THEN {} ELSE {"no_HitEnum_gaps"})
+         \cup (IF r.hit = Digits(Len(tr.truth)) \o <<77>> THEN {} ELSE {"no_HitEnum_gaps"})
 Verdict == IF C06_Failed = {} THEN TRUE ELSE PrintT(ToString(<<"V", t, C06_Failed, {}>>))
 Report == pc = "judge" /\ Verdict /\ pc' = "reported" /\ UNCHANGED t
 Terminated == pc = "reported" /\ UNCHANGED <<t, pc>>
